@@ -746,8 +746,8 @@ fn main() {
 
     let exhaustive_len_full = if args.is_thorough() { 4 } else { 3 };
     let exhaustive_len_core = if args.is_thorough() { 6 } else { 5 };
-    let n_random = args.size(20_000, 2_000_000);
     let small = args.tier == "miri" || args.tier == "tsan";
+    let n_random = if small { 30 } else { args.size(20_000, 2_000_000) };
 
     let mut report = run_workers(&args, "C01", |w, n, rng, report| {
         if !small {
